@@ -9,9 +9,12 @@
 //! Each module exposes
 //!   pub fn generate(prop: &str, out: &mut Out, thorough: bool, seed: u64) -> bool   (true if it serves `prop`)
 //!   pub fn replay(toks: &[&str], out: &mut Out) -> bool                             (true if it knows the op)
+mod cls;
 mod dec;
 mod label;
+mod memconv;
 mod util;
+mod valid;
 
 use std::io::Write;
 use util::*;
@@ -19,7 +22,13 @@ use util::*;
 type GenFn = fn(&str, &mut Out, bool, u64) -> bool;
 type ReplayFn = fn(&[&str], &mut Out) -> bool;
 
-const MODULES: &[(GenFn, ReplayFn)] = &[(label::generate, label::replay), (dec::generate, dec::replay)];
+const MODULES: &[(GenFn, ReplayFn)] = &[
+    (label::generate, label::replay),
+    (dec::generate, dec::replay),
+    (valid::generate, valid::replay),
+    (memconv::generate, memconv::replay),
+    (cls::generate, cls::replay),
+];
 
 fn main() {
     // keep panic messages of caught panics off stderr
